@@ -70,7 +70,14 @@ def gen_enddef_cases(i0, version, EC, rng, tier):
                 combos.append((kinds, szs))
     rng.shuffle(combos)
     n = 60 if tier == "quick" else 600
-    for ci, (kinds, szs) in enumerate(combos[:n]):
+    sel = combos[:n]
+    if version == 1:
+        # aimed: no single variable is oversized, but the fixed-size variables together push the record section to
+        # or just below the 2 GiB offset limit (the offset rule is about absolute file offsets, not offsets within a record)
+        sel = sel + [((False, False, True), (2 ** 30, 2 ** 30, 8)), ((False, False, True), (2 ** 30, 2 ** 30 - 4096, 8)),
+                     ((False, False, True, True), (2 ** 30, 2 ** 30, 8, 8)), ((False, False, False, True), (2 ** 30, 2 ** 29, 2 ** 29, 16)),
+                     ((False, False, True, True), (2 ** 30, 2 ** 30 - 4096, 2048, 8)), ((False, False, True), (2 ** 30 + 2 ** 29, 2 ** 29 + 4, 8))]
+    for ci, (kinds, szs) in enumerate(sel):
         sc = Script()
         # every second multi-variable combination is defined in two define-mode sessions (enddef, redef, the rest): the
         # rules are positional, so a variable accepted as "the last one" must be re-examined when another follows it.
